@@ -1,29 +1,71 @@
-import Dnp3.Model.Transport
+import Dnp3.Props.C08Base
+import Dnp3.Proofs.Transport
 /-!
-# C08 — The transport layer delivers exactly the fragments that were segmented
+# C08 — property theorems over all fragments, sequence numbers and segment histories
+(definitions `Seg`, `feedSegs`, `segsOf`, `RunFrom`, `Keep`, `Delivered` are in `Dnp3.Proofs.Transport`)
 -/
 namespace Dnp3.Props.C08
-open Dnp3
+open Dnp3 Dnp3.Proofs.Transport
 
-/-- transport header octet round trip: `Header::from_u8 (to_u8 h) = h` for 6-bit sequence numbers -/
-theorem theader_roundtrip (fin fir : Bool) (seq : Fin 64) :
-    THeader.ofNat (THeader.toNat ⟨fin, fir, seq.val⟩) = ⟨fin, fir, seq.val⟩ := by
-  revert fin fir seq; decide
+/-- the link frames `Writer::write` emits carry exactly the transport octet and payload of the
+    abstract segments `segsOf` -/
+theorem writer_frames_are_segments (isMaster : Bool) (dest localAddr : Nat) (info : FrameInfo)
+    (seq0 : Nat) (frag : List Nat) :
+    (segment isMaster dest localAddr seq0 frag).1 =
+      (segsOf info seq0 frag).map (segFrame isMaster dest localAddr) :=
+  segment_frames isMaster dest localAddr info seq0 frag
 
-/-- the sequence number wraps from 63 to 0 and otherwise increments: it is `+1 mod 64` -/
-theorem seqNext_mod (v : Nat) (h : v < 64) : seqNext v = (v + 1) % 64 := by
-  unfold seqNext; split <;> omega
+/-- the payloads of the segments of a fragment concatenate to the fragment -/
+theorem segments_carry_the_fragment (info : FrameInfo) (seq0 : Nat) (frag : List Nat) :
+    (segsOf info seq0 frag).flatMap (·.payload) = frag :=
+  segsOf_payloads info seq0 frag
 
-/-- `frameId` either stays, or advances by exactly one (mod 2^32) and then the assembler holds a
-    completed fragment carrying the old id, the segment's source and broadcast mode; resetting
-    the assembler state never touches it (C04 relies on this) -/
-theorem frame_id_counts (a : Assembler) (info : FrameInfo) (hdr : THeader) (p : List Nat) :
-    (a.assemble info hdr p).frameId = a.frameId ∨
-    ((a.assemble info hdr p).frameId = (a.frameId + 1) % 4294967296 ∧
-      ∃ len, (a.assemble info hdr p).st = .complete ⟨a.frameId, info.source, info.broadcast⟩ len) := by
-  unfold Assembler.assemble Assembler.append
-  simp only
-  repeat' split
-  all_goals simp_all
+/-- **segment / reassemble** and **damage costs one fragment**: whatever the assembler has seen
+    before (any state), feeding the segments of a fragment of 1..=cap octets — for every
+    starting sequence number, wrap included — delivers exactly that fragment, from its source,
+    with the next frame id -/
+theorem segment_reassemble (a : Assembler) (info : FrameInfo) (seq0 : Nat) (frag : List Nat)
+    (hb : info.broadcast = none) (h1 : 1 ≤ frag.length) (hcap : frag.length ≤ a.cap) :
+    ∃ a', feedSegs a (segsOf info seq0 frag) = (a', [(⟨a.frameId, info.source, none⟩, frag)]) ∧
+      a'.st = .empty ∧ a'.frameId = (a.frameId + 1) % 4294967296 ∧ a'.cap = a.cap :=
+  Dnp3.Proofs.Transport.segment_reassemble a info seq0 frag hb h1 hcap
+
+/-- a fragment larger than the receive buffer is never delivered -/
+theorem oversize_never_delivered (a : Assembler) (info : FrameInfo) (seq0 : Nat) (frag : List Nat)
+    (hb : info.broadcast = none) (hcap : a.cap < frag.length) :
+    ∃ a', feedSegs a (segsOf info seq0 frag) = (a', []) ∧ a'.st = .empty ∧
+      a'.frameId = a.frameId ∧ a'.cap = a.cap :=
+  segment_oversize_dropped a info seq0 frag hb hcap
+
+/-- **delivered ⇒ run** over EVERY segment history: each delivered fragment is the concatenation
+    of a FIR…FIN run with consecutive sequence numbers, identical frame info (same source),
+    within the buffer, a single FIR+FIN segment for a broadcast.  The run is a contiguous block
+    of the history once the always-ignored non-FIR broadcast segments are filtered out -/
+theorem delivered_is_run_general (c : Nat) (segs : List Seg) :
+    ∀ fd ∈ (feedSegs { cap := c } segs).2, Delivered c segs fd :=
+  delivered_is_run_partial c segs
+
+/-- … and it is a contiguous run of the history itself when no non-FIR broadcast segment occurs -/
+theorem delivered_is_run (c : Nat) (segs : List Seg) (hk : ∀ s ∈ segs, Keep s = true) :
+    ∀ fd ∈ (feedSegs { cap := c } segs).2, ∃ pre run post info, segs = pre ++ run ++ post ∧
+      RunFrom info true run ∧ fd.2 = payloads run ∧ fd.2.length ≤ c ∧ fd.1.source = info.source ∧
+      fd.1.broadcast = info.broadcast ∧ (info.broadcast.isSome = true → run.length = 1) :=
+  Dnp3.Proofs.Transport.delivered_is_run c segs hk
+
+/-- the full contiguity statement is false of the code: a non-FIR broadcast segment arriving in
+    the middle of a unicast run is ignored WITHOUT resetting the run (the segment is not part
+    of the delivered fragment, so the property's wording is not violated) -/
+theorem contiguity_counterexample :
+    (feedSegs { cap := 2048 }
+      [⟨⟨1, none, .data⟩, ⟨false, true, 1⟩, [10]⟩,
+       ⟨⟨2, some 0, .data⟩, ⟨false, false, 9⟩, [99]⟩,
+       ⟨⟨1, none, .data⟩, ⟨true, false, 2⟩, [20]⟩]).2 = [(⟨0, 1, none⟩, [10, 20])] :=
+  Dnp3.Proofs.Transport.contiguity_counterexample
+
+/-- delivered fragments carry consecutive frame ids 0, 1, 2, … (mod 2^32) (used by C04) -/
+theorem frame_ids_initial (c : Nat) (segs : List Seg) :
+    (feedSegs { cap := c } segs).2.map (·.1.id) =
+      (List.range (feedSegs { cap := c } segs).2.length).map (fun i => i % 4294967296) :=
+  Dnp3.Proofs.Transport.frame_ids_initial c segs
 
 end Dnp3.Props.C08
